@@ -21,6 +21,27 @@ def generate(meta, seed, tier, focus=None):
                 cases.append({'line': ('W %d %s' % (cv.idx, ' '.join(sets))).rstrip(), 'cls': name, 'kind': 'W', 'mode': mode})
                 if cv.isobj:
                     cases.append({'line': ('S %d %s' % (cv.idx, ' '.join(sets))).rstrip(), 'cls': name, 'kind': 'S', 'mode': mode})
+        # every selector member (apiMajor, flags, length ...) at the boundary values of the constants the code compares it with
+        for sf, vals in cv.selectors.items():
+            if sf in cv.derived:
+                continue
+            for val in vals:
+                for rep in range(2):
+                    base = [x for x in codec.gen_object(rng, cv, 'api') if int(x.split('=')[0]) != sf]
+                    base.append('%d=%d' % (sf, val))
+                    cases.append({'line': ('W %d %s' % (cv.idx, ' '.join(base))).rstrip(), 'cls': name, 'kind': 'W', 'mode': 'api'})
+        # systematic grid over small payload lengths (every residue mod 4, empty payloads) for all containers at once
+        vecs = [(fid, kind) for fid, kind, nm, init in cv.fields if kind[0] == 'vec']
+        if vecs:
+            import itertools
+            combos = list(itertools.product(range(4 if len(vecs) > 1 else 6), repeat=len(vecs)))
+            if len(combos) > 64:
+                combos = rng.sample(combos, 64)
+            for combo in combos:
+                base = [x for x in codec.gen_object(rng, cv, 'api') if int(x.split('=')[0]) not in [f for f, _ in vecs]]
+                for (fid, kind), ne in zip(vecs, combo):
+                    base.append('%d=x%s' % (fid, codec.rand_bytes(rng, ne * kind[1]).hex()))
+                cases.append({'line': ('W %d %s' % (cv.idx, ' '.join(base))).rstrip(), 'cls': name, 'kind': 'W', 'mode': 'api'})
     return cases, rng
 
 
